@@ -65,6 +65,7 @@ TEnumerator == LET r == Facts[l] IN
                       <<r.has_abbr => r.parse_back = r.name, V("parse_back", T, r.name, r.parse_back)>> >>
          units == IF ~unit THEN <<>> ELSE
                   << <<r.keys, V("map_keys", T, r.name, "missing in a conversion dispatch table")>>,
+                     <<r.keys => (r.dispatch_to /\ r.dispatch_from), V("dispatch_mismatch", T, r.name, "the run-time table does not dispatch this enumerator to its own conversion routine")>>,
                      <<~r.has_abbr \/ ok, V("inconclusive_symbol", T, r.name, r.abbr)>>,
                      <<r.parsed, V("inconclusive_body", T, r.name, "")>> >>
                   \o (IF ~ok THEN <<>> ELSE
